@@ -104,6 +104,56 @@ def drive_halves(rec, part, reps):
     rec.data["events"] = events
 
 
+def drive_enum3(rec, part):
+    """every product of three terms whose half-words are 0, 1 or all-ones (and 2^32 for the second operand), the same in the four lanes:
+    reference against accelerated kernel on all of them; the reference results of a sample, and both results wherever the two differ,
+    are recorded for TLC"""
+    import itertools
+    rng = random.Random(rec.seed + 41 + part)
+    L = Lib.get()
+    qc = q120.Q(L)
+    events = []
+    kind, lx, w = [("bbb", "b", 32), ("baa", "a", 16)][part]
+    top = (1 << w) - 1
+    xv = [0, 1, top, top << w, top | (top << w)]
+    yv = xv + [1 << w]
+    X, Y, R1, R2 = Buf(32 * 3, fill=0), Buf(32 * 3, fill=0), Buf(32, fill=0xEE), Buf(32, fill=0xEE)
+    pre = qc.prod_pre(kind)
+    f_ref = L.fn("q120_vec_mat1col_product_%s_ref" % kind, "v puppp")
+    f_avx = L.fn("q120_vec_mat1col_product_%s_avx2" % kind, "v puppp")
+    qs = [int(v) for v in qc.q]
+    ndiff = 0
+    if not rec.progress("q120 product %s: every three-term product of half-word extremes (ref against avx2)" % kind):
+        rec.data["events"] = events
+        return
+    xu, yu = X.u64, Y.u64
+    for xs in itertools.product(xv, repeat=3):
+        for t in range(3):
+            xu[4 * t:4 * t + 4] = xs[t]
+        for ys in itertools.product(yv, repeat=3):
+            for t in range(3):
+                yu[4 * t:4 * t + 4] = ys[t]
+            f_ref(pre, 3, R1.addr, X.addr, Y.addr)
+            f_avx(pre, 3, R2.addr, X.addr, Y.addr)
+            r1 = [int(R1.u64[k]) % qs[k] for k in range(4)]
+            r2 = [int(R2.u64[k]) % qs[k] for k in range(4)]
+            differ = r1 != r2
+            if differ or rng.random() < 0.004:
+                xe = [[v % qs[k] for k in range(4)] for v in xs]
+                ye = [[v % qs[k] for k in range(4)] for v in ys]
+                events.append({"e": "QProd", "kind": kind, "impl": "ref", "ell": 3, "x": xe, "y": ye, "res": [r1],
+                               "_what": "q120 product %s_ref on x=%s y=%s" % (kind, [hex(v) for v in xs], [hex(v) for v in ys])})
+                if differ:
+                    ndiff += 1
+                    if ndiff <= 20:
+                        events.append({"e": "QProd", "kind": kind, "impl": "avx2", "ell": 3, "x": xe, "y": ye, "res": [r2],
+                                       "_what": "q120 product %s_avx2 on x=%s y=%s" % (kind, [hex(v) for v in xs], [hex(v) for v in ys])})
+    rec.case((kind, "enum3"))
+    if not (X.canaries_ok() and Y.canaries_ok() and R1.canaries_ok() and R2.canaries_ok()):
+        rec.violation("q120 product %s: write outside the result" % kind, {})
+    rec.data["events"] = events
+
+
 def drive_products(rec, part, ells, reps):
     rng = random.Random(rec.seed * 131 + part)
     L = Lib.get()
@@ -352,7 +402,8 @@ def run(chk, replay=None):
     jobs = [("q120 products part %d" % i, drive_products, (i, ells[i::4], 3 if quick else 6)) for i in range(4)]
     jobs.append(("q120 conversions and block maps", drive_conversions, (40 if quick else 400,)))
     jobs += [("q120 products on half-word boundary operands part %d" % i, drive_halves, (i, 150 if quick else 1500)) for i in range(4)]
-    res = isolated_many(chk, jobs, timeout=1800, nproc=9)
+    jobs += [("q120 products: all three-term products of half-word extremes (%s)" % k, drive_enum3, (i,)) for i, k in enumerate(("bbb", "baa"))]
+    res = isolated_many(chk, jobs, timeout=1800, nproc=11)
     events = [ev for d in res if d for ev in d["events"]]
     clean = [{k: v for k, v in ev.items() if not k.startswith("_")} for ev in events]
     bad, results = validate_events("Q120Trace", "Q120Trace.cfg", clean, "c10", nproc=12, timeout=3000)
